@@ -20,7 +20,7 @@ VERUS_ARGS = ['--multiple-errors', '50', '--output-json', '--time', '--error-for
 VERIF_FAIL_MSGS = ('postcondition not satisfied', 'precondition not satisfied', 'assertion failed', 'invariant not satisfied',
                    'possible arithmetic underflow/overflow', 'possible division by zero', 'decreases not satisfied',
                    'could not prove termination', 'arithmetic underflow', 'recommendation not met', 'index out of bounds',
-                   'unreachable', 'failed', 'possible bit shift', 'ensures not satisfied', 'loop invariant')
+                   'unreachable', 'failed', 'possible bit shift', 'ensures not satisfied', 'loop invariant', 'unable to prove')
 UNDECIDED_MSGS = ('rlimit', 'Resource limit', 'timed out', 'timeout')
 
 
